@@ -44,7 +44,10 @@ Replay(t, d, i) ==
            ELSE IF ~Same(r.d, s.after) THEN [at |-> i, why |-> "document after remove", d |-> r.d]
            ELSE Replay(t, r.d, i + 1)
 Judge(t) == LET r == Replay(t, t.start, 1) IN
-            IF r.at # 0 THEN [at |-> r.at, why |-> r.why, want |-> r.d]
+            \* plain Go data of every kind the statement lists (all Go integer types, floats, strings, times, slices, maps) through
+            \* SimpleObject and Simplify: the cases that did not come back as the same data (reported once per worker)
+            IF t.bridge2 # <<>> THEN [at |-> -1, why |-> "Go data through SimpleObject and Simplify: " \o t.bridge2[1], want |-> Null]
+            ELSE IF r.at # 0 THEN [at |-> r.at, why |-> r.why, want |-> r.d]
             ELSE IF t.rt.st # "ok" THEN [at |-> -1, why |-> "round trip signals", want |-> r.d]
             ELSE IF ~Same(r.d, t.rt.sen) THEN [at |-> -1, why |-> "written as SEN and parsed", want |-> r.d]
             ELSE IF ~Same(r.d, t.rt.json) THEN [at |-> -1, why |-> "written as JSON and parsed", want |-> r.d]
